@@ -69,7 +69,8 @@ def parseScn (ws : List String) : Option Scn := do
   let flag (p : String) : Nat := (flags.findSome? fun f => if f.startsWith p then (f.drop p.length).toString.toNat? else none).getD 0
   let evs ← (ws.filter fun w => !(w.contains '=') && !(w.contains '~')).mapM parseEv
   some { info := { caps := caps, lifecycleStop := stop, wb := get "wb" == some "1", complete := (get "end").isSome,
-                   hung := flag "hung" > 0, late := flag "late" > 0, panicked := flag "panic" > 0, liveRg := flag "live" },
+                   hung := flag "hung" > 0, late := flag "late" > 0, panicked := flag "panic" > 0, liveRg := flag "live",
+                   gateLate := flag "gl" },
          users := users, evs := evs }
 
 /-- model step that must emit exactly the expected observation (or none) -/
